@@ -21,7 +21,7 @@ RULE = ("E1: SumdbClient with several threads and clients, every separately atom
         "head they carry, tiles that exist exactly when the log has their hashes); every session of 4/5 requests is replayed over HTTP "
         "against sumdb.Server / TestServer and 24-way concurrent lookups are recorded. Non-trivial = every schedule (at least two concurrent lookups).")
 
-KEEP = ("c14:", "server:", "conc:")
+KEEP = ("c14:", "server:", "conc:", "storage:", "counter:")
 
 
 def split_file(path, n):
@@ -49,6 +49,9 @@ def run(ctx):
     from vcore import gen_and_replay, record_and_validate
     gen_and_replay(ctx, "sumserver", "SumdbServerGen", "SumdbServerGen_h2" if q else "SumdbServerGen_h1", floor=5000, workers=6, timeout=1800)
     record_and_validate(ctx, "sumserver", "SumdbServerTrace", "SumdbServerTrace", 60 if q else 600, shards=2)
+    # the transactional store a production server sits on (sumdb/storage): serializable transactions, repeated attempts leave no trace
+    gen_and_replay(ctx, "storage", "StorageGen", "StorageGen_2", floor=20000, workers=6, timeout=1800)
+    record_and_validate(ctx, "storage", "StorageTrace", "StorageTrace", 60 if q else 600, shards=2)
     # E2: simulated schedules replayed deterministically
     nsim = 80 if q else 2500
     out, res = sumdbmc.run_configs(ctx, sumdbmc.c14_sim_configs(ctx.tier), workers_each=1, parallel=4, timeout=3000, label="C14sim",
